@@ -10,7 +10,7 @@ from ray.rllib.env.multi_agent_env import MultiAgentEnv
 
 from primaite.game.agent.interface import ProxyAgent
 from primaite.game.game import PrimaiteGame
-from primaite.session.environment import _LOGGER, PrimaiteGymEnv
+from primaite.session.environment import _LOGGER, own_generator_state, PrimaiteGymEnv
 from primaite.session.episode_schedule import build_scheduler, EpisodeScheduler
 from primaite.session.io import PrimaiteIO
 from primaite.simulator import SIM_OUTPUT
@@ -20,6 +20,7 @@ from primaite.simulator.system.core.packet_capture import PacketCapture
 class PrimaiteRayMARLEnv(MultiAgentEnv):
     """Ray Environment that inherits from MultiAgentEnv to allow training MARL systems."""
 
+    @own_generator_state
     def __init__(self, env_config: Dict) -> None:
         """Initialise the environment.
 
@@ -62,6 +63,7 @@ class PrimaiteRayMARLEnv(MultiAgentEnv):
         """Grab a fresh reference to the agents from this episode's game object."""
         return {name: self.game.rl_agents[name] for name in self._agent_ids}
 
+    @own_generator_state
     def reset(self, *, seed: int = None, options: dict = None) -> Tuple[ObsType, Dict]:
         """Reset the environment."""
         super().reset()  # Ensure PRNG seed is set everywhere
@@ -82,6 +84,7 @@ class PrimaiteRayMARLEnv(MultiAgentEnv):
         info = {}
         return next_obs, info
 
+    @own_generator_state
     def step(
         self, actions: Dict[str, ActType]
     ) -> Tuple[Dict[str, ObsType], Dict[str, SupportsFloat], Dict[str, bool], Dict[str, bool], Dict]:
